@@ -3,7 +3,8 @@
  * record: 1 byte op ('W' write, 'F' fsync, 'T' ftruncate, 'O' open, 'C' close),
  *         8 bytes offset (LE), 8 bytes length (LE), then <length> data bytes for 'W';
  *         for 'O' the offset field holds the open flags.
- * IOTRACE_FAIL_AT = k: the k-th write (1-based) fails with EIO (0/unset = never). */
+ * IOTRACE_FAIL_AT = k: the k-th write (1-based) fails with EIO (0/unset = never).
+ * IOTRACE_KILL_AT = k: the process is killed (SIGKILL, no exit handlers) instead of performing the k-th write. */
 #define _GNU_SOURCE
 #include <dlfcn.h>
 #include <stdio.h>
@@ -12,13 +13,14 @@
 #include <stdarg.h>
 #include <fcntl.h>
 #include <errno.h>
+#include <signal.h>
 #include <unistd.h>
 #include <sys/types.h>
 #include <sys/stat.h>
 
 static int watched[1024];
 static int logfd = -1;
-static long nwrites, fail_at = -1;
+static long nwrites, fail_at = -1, kill_at = -1;
 
 static void init(void)
 {
@@ -29,6 +31,7 @@ static void init(void)
 	logfd = ((int (*)(const char *, int, ...)) dlsym(RTLD_NEXT, "open"))(l, O_WRONLY | O_CREAT | O_APPEND, 0600);
 	if (logfd < 0) logfd = -2;
 	if (getenv("IOTRACE_FAIL_AT")) fail_at = atol(getenv("IOTRACE_FAIL_AT"));
+	if (getenv("IOTRACE_KILL_AT")) kill_at = atol(getenv("IOTRACE_KILL_AT"));
 }
 
 static void rec(char op, unsigned long long off, unsigned long long len, const void *data)
@@ -90,6 +93,7 @@ int close(int fd)
 static int should_fail(void)
 {
 	nwrites++;
+	if (kill_at > 0 && nwrites == kill_at) kill(getpid(), SIGKILL);
 	return fail_at > 0 && nwrites == fail_at;
 }
 ssize_t pwrite64(int fd, const void *buf, size_t n, off64_t off)
